@@ -690,8 +690,28 @@ where
             Err(e) => Err(format!("bridge rejected a valid response: {e}")),
         }
     }
-    fn drop_req(&mut self, _key: ReqKey) -> bool {
-        false
+    /// A byte-level shell cannot drop a request value. What it can do to a one-shot is answer it with
+    /// bytes that do not decode: the response is rejected, and the request is not outstanding any more
+    /// from the shell's point of view.
+    fn drop_req(&mut self, key: ReqKey) -> bool {
+        let Some((id, _op)) = self.ids.get(&key).copied() else { return false };
+        let once = self.bridge.registry().iter().any(|(i, k)| *i == id && *k == crux_core::verif::EntryKind::Once);
+        if !once {
+            return false;
+        }
+        let garbage: &[u8] = match self.wire {
+            Wire::Bincode => &[0xff],
+            Wire::Json => b"{\"no",
+        };
+        match self.bridge.handle_response(id, garbage) {
+            Err(BridgeError::DeserializeOutput(_)) => {}
+            Err(e) => self.errors.push(format!("undecodable response to a one-shot: unexpected error kind {e}")),
+            Ok(_) => self.errors.push("undecodable response to a one-shot was accepted".into()),
+        }
+        if let Some(v) = self.ids.remove(&key) {
+            self.consumed.insert(key, v);
+        }
+        true
     }
     fn settle(&mut self) -> StepObs {
         let mut effects = std::mem::take(&mut self.pending);
